@@ -3,7 +3,9 @@
 Scenario lines (lean/DesperModel/Coro.lean reads the same text):
 
     gen <g> : <step> | <step> ...          script of generator object g (ids 0,1,2.. in order)
-        <step> = [<act> ; ...] yield <w>   |   [<act> ; ...] ret <v>
+        <step> = [<act> ; ...] yield <w>   |   [<act> ; ...] ret <v>   |   [<act> ; ...] raise <Exc>
+                 (<Exc>: Quit / SwitchWorld are desper's own, anything else a builtin exception; the
+                 exception leaves the body, hence process(); the harness catches it and goes on)
         <act>  = start <h> | kill <h> | state <h>        (exceptions are caught by the body)
         <w>, <v> = N (None) or an integer; waits and dt are in units of 1/8 s
     op start|kill|state|value <g>      (an id that names no script is a non-generator object)
@@ -54,8 +56,10 @@ def parse_step(toks):
     for a in acts:
         if len(a) != 2 or a[0] not in ('start', 'kill', 'state'):
             raise ValueError(f'bad action {a}')
-    if len(last) != 2 or last[0] not in ('yield', 'ret'):
+    if len(last) != 2 or last[0] not in ('yield', 'ret', 'raise'):
         raise ValueError(f'bad step end {last}')
+    if last[0] == 'raise':
+        return [(a[0], int(a[1])) for a in acts], ('raise', last[1])
     return [(a[0], int(a[1])) for a in acts], (last[0], dec(last[1]))
 
 
@@ -77,6 +81,17 @@ def parse(lines):
     return scripts, ops
 
 
+def make_exception(name):
+    """what quit_loop() / switch() / a plain bug inside a coroutine raise"""
+    import builtins
+    import desper
+    if name == 'Quit':
+        return desper.Quit()
+    if name == 'SwitchWorld':
+        return desper.SwitchWorld(None)
+    return getattr(builtins, name)()
+
+
 class NotAGenerator:
     """What the scenario passes where a generator object is expected."""
 
@@ -89,7 +104,7 @@ class Run:
         self.gens = {g: self.body(g, sc) for g, sc in enumerate(self.scripts)}
         self.promises = {g: [] for g in self.gens}
         self.frame_steps = None
-        self.hints = []
+        self.frames = []
 
     def obj(self, h):
         return self.gens[h] if h in self.gens else NotAGenerator()
@@ -104,6 +119,8 @@ class Run:
                 self.obs.append(f'act {g} {i} {a} {h} {self.action(a, h)}')
             if kind == 'yield':
                 yield None if val is None else val / 8.0
+            elif kind == 'raise':
+                raise make_exception(val)
             else:
                 return val
 
@@ -136,7 +153,7 @@ class Run:
                 if isinstance(e, Timeout):
                     raise
                 out = 'raised ' + type(e).__name__
-            self.hints.append('hint ' + (','.join(map(str, self.frame_steps)) or '-'))
+            self.frames.append(self.frame_steps)
             self.frame_steps = None
         elif kind == 'value':
             ps = self.promises.get(int(t[1]), [])
@@ -173,7 +190,13 @@ class Run:
         gc.collect()
         alive = [str(g) for g, r in refs.items() if r() is not None]
         self.obs.append('retained ' + (','.join(alive) or '-'))
-        return self.obs, self.hints
+        # a generator woken in one call may get its first turn in a later one (after a call that a
+        # body aborted): the tie-break of a call also lists the bodies of the two calls after it
+        hints = []
+        for k in range(len(self.frames)):
+            seq = [g for f in self.frames[k:k + 3] for g in f]
+            hints.append('hint ' + (','.join(map(str, seq)) or '-'))
+        return self.obs, hints
 
 
 def run_impl(lines):
